@@ -241,8 +241,9 @@ Fixpoint delete_one (x l : list string) : list (list string) :=
   end.
 
 (* the reparse-safe domain of the text-level predicates (the classes of Check_Norm: inert
-   text, calm tight items; item leads are no restriction any more since the builder repair of
-   F-LEADPANIC / F-ITEMLEAD, tables with code spans none since the repair of F-TABLECODE) *)
+   text; item leads are no restriction any more since the builder repair of F-LEADPANIC /
+   F-ITEMLEAD, tables with code spans none since the repair of F-TABLECODE, rules, tables and
+   quotes in tight items none since the repair of F-TIGHTTAIL) *)
 (* as Check_Norm.inert_inline, except that the text of a bare wiki link (which iwe never writes:
    it is regenerated from the url) is not looked at *)
 Fixpoint a_inert_inline (i : inline) : bool :=
@@ -271,7 +272,7 @@ Fixpoint a_inert_block (b : dblock) {struct b} : bool :=
   end.
 
 Definition blocks_dom (bs : list dblock) : bool :=
-  forallb a_inert_block bs && forallb calm_items bs.
+  forallb a_inert_block bs.
 
 (* also outside the domain: a library in which some note's title holds a refreshable link
    (F-TITLELINK of C02: formatting is not a fixpoint there, so "restores the formatted original"
@@ -319,30 +320,9 @@ Fixpoint max_level (b : gblock) : nat :=
   end.
 Definition max_levels (bs : list gblock) : nat := fold_right (fun b n => Nat.max (max_level b) n) 0 bs.
 
-(* a tight item (blocks written without blank lines between them) in which a rule or a table
-   follows the item text (read back as a setext heading / as continuation text) or two quotes
-   follow each other (read back as one quote): what section -> list writes for a section whose body has such a block
-   and at most one paragraph *)
-Fixpoint adjacent_quotes (l : list gblock) : bool :=
-  match l with
-  | GQuote _ :: ((GQuote _ :: _) as r) => true
-  | _ :: r => adjacent_quotes r
-  | [] => false
-  end.
-Fixpoint g_calm (b : gblock) {struct b} : bool :=
-  let fix go (l : list gblock) : bool := match l with [] => true | x :: r => g_calm x && go r end in
-  let fix goi (tight : bool) (l : list (list gblock)) : bool :=
-    match l with
-    | [] => true
-    | it :: r => negb (tight && (existsb (fun x => match x with GRule | GTable _ _ _ => true | _ => false end) it
-                                 || adjacent_quotes it))
-                 && go it && goi tight r
-    end in
-  match b with
-  | GQuote bs => go bs
-  | GOList its | GBList its => goi (negb (is_sparse its)) its
-  | _ => true
-  end.
+(* (the former class "tight item holding a rule or table, or two quotes in a row" - C10 class 5, C09 class 19,
+   F-C10-tight-rule / F-C09-inline-tight-rule - is repaired in the writer: such a list is written sparse,
+   GraphBlock::is_sparce_list / Project.is_sparse) *)
 
 (* per-action results are folded like per-note results: an action failing outside every class
    is reported without classes (so it can never hide behind another action's class) *)
